@@ -1,5 +1,15 @@
 # Property -> harness groups, tiers and bounds. Read by ./check.
 COMMON = "pkg/netpol/internal/common"
+EVAL = "pkg/netpol/eval"
+
+VALIDITY = "inputs satisfy what the Kubernetes API server enforces (DESIGN 3.3): ports 1..65535, endPort>=port, IPv4 CIDRs with excepts strictly inside, valid labels"
+
+
+def ev(run, bounds, outside, **kw):
+    d = dict(run=run, bounds=bounds, outside=outside)
+    d.update(kw)
+    return d
+
 
 PROPS = {
     "C11": dict(
@@ -8,10 +18,52 @@ PROPS = {
         ],
         groups=[
             dict(pkg=COMMON, harness="harness/common",
-                 quick=dict(run="^ZZ_C11_", bounds="<=2 intervals per protocol per operand (vf_Tier 0)", models=60,
-                            outside="more intervals per protocol; more than two port names"),
-                 thorough=dict(run="^ZZ_C11_", bounds="<=3 intervals per protocol per operand (vf_Tier 1)", models=600,
-                               outside="more intervals per protocol; more than two port names")),
+                 quick=ev("^ZZ_C11_", "focus protocol with <=1 symbolic interval (17-bit endpoints covering 1..65535) and one port name; other protocols absent/full",
+                          "more intervals per protocol; more than one port name; named-port semantics of Intersection/Subtract", models=60),
+                 thorough=ev("^ZZ_C11_", "focus protocol with <=2 symbolic intervals; other protocols absent/full/fixed partial range",
+                             "more intervals per protocol; more than one port name", models=600)),
+        ],
+    ),
+    "C01": dict(
+        assumptions=[VALIDITY, "oracle R_np (harness/shared/zz_oracle.go) is the reading of Kubernetes NetworkPolicy semantics"],
+        groups=[
+            dict(pkg=EVAL, harness="harness/eval", shared="harness/shared",
+                 quick=ev("^ZZ_C01_OnePolicy$", "3 workloads in 2 namespaces (with/without Namespace objects), one NetworkPolicy from menus: 3 selectors x 4 policyTypes x "
+                          "{no rule, one ingress rule, one egress rule} x 5 peer shapes (incl. ipBlock with <=1 except, prefix lengths {0,24,32}) x 5 port shapes "
+                          "(range, protocol-only, named, two entries); all ordered peer pairs; symbolic ports, port ranges, container port, CIDR bits, address",
+                          "more policies/rules; other prefix lengths; IPv6", models=40),
+                 thorough=ev("^ZZ_C01_", "as quick plus rules in both directions, prefix lengths {0,1,8,24,31,32} and every length for one CIDR, a second policy from a reduced menu",
+                             "more than two policies; IPv6", models=300)),
+        ],
+    ),
+    "C02": dict(
+        assumptions=[VALIDITY, "oracle R_adm (zz_oracle.go) is the reading of the ANP/NP/BANP layering; ANP priorities pairwise distinct in 0..1000 (C19 covers the rest)"],
+        groups=[
+            dict(pkg=EVAL, harness="harness/eval", shared="harness/shared",
+                 quick=ev("^ZZ_C02_", "2 ANPs with symbolic distinct priorities inserted in index order (every relative order of position and priority), "
+                          "first ANP from 24 shapes with a symbolic port range, second selecting everything with any action; optional BANP; optional NetworkPolicy with a symbolic range; all pairs",
+                          "more ANPs/rules per ANP; richer subjects; equal priorities", models=40),
+                 thorough=ev("^ZZ_C02_", "2-3 ANPs, first with <=2 rules from the full menus (3 subjects x 3 actions x 3 peers x 4 port kinds incl. named port)",
+                             "more than 3 ANPs", models=300)),
+        ],
+    ),
+    "C03": dict(
+        assumptions=[VALIDITY],
+        groups=[
+            dict(pkg=EVAL, harness="harness/eval", shared="harness/shared",
+                 quick=ev("^ZZ_C03_", "CheckIfAllowed vs the connection set of the same engine vs the oracle, one ordered pair per path (all pairs explored), three protocols in mixed spellings, "
+                          "symbolic port rendered as decimal text, IP peers as dotted-quad text of a symbolic address; NetworkPolicy worlds (reduced menus) and ANP/BANP worlds",
+                          "CLI eval command (pkg/cli) — see C03 group cli; larger worlds", models=40),
+                 thorough=ev("^ZZ_C03_", "full C01/C02 menus", "larger worlds", models=300)),
+        ],
+    ),
+    "C05": dict(
+        assumptions=[VALIDITY],
+        groups=[
+            dict(pkg=EVAL, harness="harness/eval", shared="harness/shared",
+                 quick=ev("^ZZ_C05_", "IP partition: 2 rule ipBlocks (symbolic network bits, prefix lengths {0,24,32}), <=1 except on the first; two symbolic addresses",
+                          "more blocks/excepts; other prefix lengths", models=40),
+                 thorough=ev("^ZZ_C05_", "2 blocks with <=1 except each; prefix lengths {0,1,8,24,31,32} and all 33 for one", "more blocks", models=300)),
         ],
     ),
 }
